@@ -94,16 +94,58 @@ def gen(rng, tier, index):
             if rng.random() < 0.5:
                 a["cfg"]["maxcor"] = acts[0]["cfg"]["maxcor"]
         acts[0]["problem"]["n"] = acts[0]["problem"]["n"]
+    mode = str(choice(rng, ["uniform", "uniform", "alternate", "burst"]))
+    # the schedule is materialised in the plan: who holds the baton after each yield point
+    # (when the list is exhausted the current holder keeps running to completion)
+    npick = 1500 if tier == "quick" else 4000
+    if mode == "uniform":
+        picks = [int(v) for v in rng.integers(0, n, size=npick)]
+    elif mode == "alternate":
+        picks = [i % n for i in range(npick)]
+    else:
+        picks, cur = [], 0
+        while len(picks) < npick:
+            cur = int(rng.integers(0, n))
+            picks.extend([cur] * int(rng.integers(3, 40)))
+        picks = picks[:npick]
     plan = {
         "acts": acts,
+        "picks": picks,
         "sched_seed": int(rng.integers(0, 2**31 - 1)),
-        "sched_mode": str(choice(rng, ["uniform", "uniform", "alternate", "burst"])),
+        "sched_mode": mode,
         "line_preempt": bool(rng.random() < (0.1 if tier == "quick" else 0.15)),
         "n_log_variants": 4 if tier == "quick" else 10,
         "fresh_interpreter": bool(rng.random() < 0.01),
         "_ints": ["n_log_variants"],
     }
     return plan
+
+
+def candidates(plan):
+    """Schedule first (fewer switches), then the generic moves."""
+    import copy as _copy
+
+    from ..core import generic_candidates
+
+    picks = plan.get("picks")
+    if picks:
+        for keep in (0, len(picks) // 8, len(picks) // 2):
+            if keep < len(picks):
+                q = _copy.deepcopy(plan)
+                q["picks"] = picks[:keep]
+                yield q
+        # merge neighbouring bursts: fewer context switches
+        merged = []
+        for i, v in enumerate(picks):
+            merged.append(picks[i - 1] if i % 2 and i > 0 else v)
+        if merged != picks:
+            q = _copy.deepcopy(plan)
+            q["picks"] = merged
+            yield q
+    for q in generic_candidates(plan):
+        if "acts" in q and len(q["acts"]) < 2:
+            continue
+        yield q
 
 
 def _prepare(spec):
@@ -218,7 +260,7 @@ def execute(plan):
         add("repeat_differs", {"act": 0})
 
     # ---- concurrent, seeded schedule
-    S = Sched(len(prepared), seed=plan["sched_seed"], mode=plan["sched_mode"])
+    S = Sched(len(prepared), seed=plan["sched_seed"], mode=plan["sched_mode"], picks=plan.get("picks"))
     conc = []
     for i in range(len(prepared)):
         kw = {}
